@@ -229,6 +229,24 @@ func scenarioC18(r *Run) {
 				})
 			}}
 		})
+		// the same message checked under the verifier of ANOTHER key of the same
+		// algorithm (a receiver trying its trusted keys in parallel): refused,
+		// whoever else is verifying the message at that moment
+		if others := verifiersOfOtherKeys(r, t, sm.w.Spec); others != nil {
+			menu = append(menu, func() c18Op {
+				return c18Op{"Verify(" + sm.desc + ", another key)", func() c18Result {
+					return guard(func() ([]byte, error) {
+						if sm.ms != nil {
+							return nil, sm.ms.Verify(ext, others...)
+						}
+						if kind == refcose.KSign1Untagged {
+							return nil, (*cose.UntaggedSign1Message)(sm.m1).Verify(ext, others[0])
+						}
+						return nil, sm.m1.Verify(ext, others[0])
+					})
+				}}
+			})
+		}
 		menu = append(menu, func() c18Op {
 			return c18Op{"MarshalCBOR(" + sm.desc + ")", func() c18Result {
 				return guard(func() ([]byte, error) {
@@ -560,6 +578,11 @@ func scenarioC18(r *Run) {
 		r.Probe("schedule-infeasible(task-blocked)")
 		r.Skip("schedule infeasible: a task blocked outside a yield point")
 	}
+	if res.BlockedHandoffs > 0 {
+		// a task waited in a lock / channel / condition for a parked one and
+		// the next runnable task was run instead
+		r.Probe("task-blocked-control-handed-on")
+	}
 	r.Steps += int(res.Steps)
 	r.Logf("schedule hash %x steps %d switches %d", res.Hash, res.Steps, res.Switches)
 	r.sched = append(r.sched, res.Hash)
@@ -648,3 +671,18 @@ func bucket(n int64) string {
 }
 
 var _ = tape.Mix
+
+// verifiersOfOtherKeys: for every signer of the spec a verifier of another key
+// with the same algorithm (nil when there is none for some position).
+func verifiersOfOtherKeys(r *Run, t *tape.Tape, spec *MsgSpec) []cose.Verifier {
+	keys := keysOf(spec)
+	out := make([]cose.Verifier, len(keys))
+	for i, k := range keys {
+		o := otherKey(t, k, true)
+		if o == nil || o.Alg != k.Alg {
+			return nil
+		}
+		out[i] = r.verifierFor(o, false)
+	}
+	return out
+}
